@@ -470,3 +470,159 @@ theorem processEllipsis_ok (es : List Elem) (hok : OffsetsInBounds es) (hr : Res
     · rw [if_neg hc]; exact hr x hx
 
 end NemoVerif.V1Compile
+
+namespace NemoVerif.V1Compile
+
+/-! ### `_resolve_gotos`: every goto lands on its label -/
+
+/-- every entry of `checkpoint_idx` that was not there before points at a `label` element of that name -/
+theorem checkpoints_sound : ∀ (r : List Elem) (i : Nat) (acc tbl : List (String × Nat)),
+    checkpoints i r acc = .ok tbl →
+    ∀ x ∈ tbl, x ∈ acc ∨ (i ≤ x.2 ∧ ∃ lab, r[x.2 - i]? = some lab ∧ lab.kind = .label ∧ lab.name = some x.1) := by
+  intro r
+  induction r with
+  | nil => intro i acc tbl h x hx; simp [checkpoints] at h; subst h; exact Or.inl hx
+  | cons e r ih =>
+    intro i acc tbl h x hx
+    simp only [checkpoints] at h
+    have lift : ∀ acc', checkpoints (i + 1) r acc' = .ok tbl → (x ∈ acc' → x ∈ acc ∨ (x.2 = i ∧ e.kind = .label ∧ e.name = some x.1)) →
+        x ∈ acc ∨ (i ≤ x.2 ∧ ∃ lab, (e :: r)[x.2 - i]? = some lab ∧ lab.kind = .label ∧ lab.name = some x.1) := by
+      intro acc' h' hacc
+      rcases ih (i + 1) acc' tbl h' x hx with h1 | ⟨h1, lab, h2, h3, h4⟩
+      · rcases hacc h1 with h1 | ⟨h1, h2, h3⟩
+        · exact Or.inl h1
+        · exact Or.inr ⟨by omega, e, by simp [h1], h2, h3⟩
+      · refine Or.inr ⟨by omega, lab, ?_, h3, h4⟩
+        have e1 : x.2 - i = (x.2 - (i + 1)) + 1 := by omega
+        rw [e1]; simpa using h2
+    by_cases hk : e.kind = .label
+    · rw [if_pos hk] at h
+      cases hn : e.name with
+      | none => rw [hn] at h; cases h
+      | some n =>
+        rw [hn] at h
+        simp only at h
+        by_cases hd : (List.lookup n acc).isSome = true
+        · rw [if_pos hd] at h; cases h
+        · rw [if_neg hd] at h
+          apply lift _ h
+          intro hx'
+          rcases List.mem_cons.1 hx' with hx' | hx'
+          · subst hx'; exact Or.inr ⟨rfl, hk, hn⟩
+          · exact Or.inl hx'
+    · rw [if_neg hk] at h
+      exact lift acc h (fun hx' => Or.inl hx')
+
+theorem resolveFrom_goto (tbl : List (String × Nat)) : ∀ (r : List Elem) (i : Nat) (r' : List Elem),
+    resolveFrom tbl i r = .ok r' → ∀ j e, r[j]? = some e → e.kind = .goto →
+      ∃ n k e', e.name = some n ∧ tbl.lookup n = some k ∧ r'[j]? = some e' ∧ e'.kind = .jump ∧
+        e'.next = some ((k : Int) - ((i + j : Nat) : Int)) := by
+  intro r
+  induction r with
+  | nil => intro i r' _ j e hj; simp at hj
+  | cons a r ih =>
+    intro i r' h j e hj hg
+    simp only [resolveFrom] at h
+    cases hr : resolveFrom tbl (i + 1) r with
+    | error m => rw [hr] at h; cases h
+    | ok r0 =>
+      rw [hr] at h
+      simp only at h
+      cases j with
+      | succ j' =>
+        have hj' : r[j']? = some e := by simpa using hj
+        obtain ⟨n, k, e', h1, h2, h3, h4, h5⟩ := ih (i + 1) r0 hr j' e hj' hg
+        have e1 : ((i + 1 + j' : Nat) : Int) = ((i + (j' + 1) : Nat) : Int) := by omega
+        have tail : ∀ x, r' = x :: r0 → ∃ n k e', e.name = some n ∧ tbl.lookup n = some k ∧ r'[j' + 1]? = some e' ∧
+            e'.kind = .jump ∧ e'.next = some ((k : Int) - ((i + (j' + 1) : Nat) : Int)) := by
+          intro x hx; subst hx
+          exact ⟨n, k, e', h1, h2, by simpa using h3, h4, by rw [← e1]; exact h5⟩
+        by_cases hk : a.kind = .label
+        · rw [if_pos hk] at h; cases h; exact tail _ rfl
+        · rw [if_neg hk] at h
+          by_cases hga : a.kind = .goto
+          · rw [if_pos hga] at h
+            cases hl : a.name.bind (fun n => List.lookup n tbl) with
+            | none => rw [hl] at h; cases h
+            | some k0 => rw [hl] at h; cases h; exact tail _ rfl
+          · rw [if_neg hga] at h; cases h; exact tail _ rfl
+      | zero =>
+        simp at hj; subst hj
+        have hk : ¬ a.kind = .label := by rw [hg]; simp
+        rw [if_neg hk, if_pos hg] at h
+        cases hl : a.name.bind (fun n => List.lookup n tbl) with
+        | none => rw [hl] at h; cases h
+        | some k =>
+          rw [hl] at h
+          cases h
+          cases hn : a.name with
+          | none => rw [hn] at hl; simp at hl
+          | some n =>
+            rw [hn] at hl
+            simp at hl
+            exact ⟨n, k, { a with kind := .jump, next := some ((k : Int) - (i : Int)) }, rfl, hl, by simp [hn], rfl, by simp⟩
+
+/-- `_resolve_gotos`: an accepted flow has, for every `goto n` at index `i`, a `label n` at some index `k`, and the goto
+    became the relative jump `k - i` (so `i + _next = k`: it lands exactly on its label) -/
+theorem resolveGotos_lands (es es' : List Elem) (h : resolveGotos es = .ok es') (i : Nat) (e : Elem)
+    (hi : es[i]? = some e) (hg : e.kind = .goto) :
+    ∃ (n : String) (k : Nat) (e' lab : Elem), e.name = some n ∧ es'[i]? = some e' ∧ e'.kind = .jump ∧ e'.next = some ((k : Int) - (i : Int)) ∧
+      es[k]? = some lab ∧ lab.kind = .label ∧ lab.name = some n := by
+  unfold resolveGotos at h
+  cases hc : checkpoints 0 es [] with
+  | error m => rw [hc] at h; cases h
+  | ok tbl =>
+    rw [hc] at h
+    simp only at h
+    obtain ⟨n, k, e', h1, h2, h3, h4, h5⟩ := resolveFrom_goto tbl es 0 es' h i e hi hg
+    rcases checkpoints_sound es 0 [] tbl hc (n, k) (lookup_mem tbl n k h2) with hx | ⟨_, lab, hl1, hl2, hl3⟩
+    · simp at hx
+    · exact ⟨n, k, e', lab, h1, h3, h4, by simpa using h5, by simpa using hl1, hl2, hl3⟩
+
+theorem processEllipsis_keeps_jump (es : List Elem) (i : Nat) (e : Elem) (h : es[i]? = some e) (hk : e.kind = .jump) :
+    (processEllipsis es)[i]? = some e := by
+  unfold processEllipsis
+  rw [List.getElem?_map, h]
+  simp [hk]
+
+end NemoVerif.V1Compile
+
+namespace NemoVerif.V1Compile
+
+theorem resolveFrom_flag (tbl : List (String × Nat)) : ∀ (r : List Elem) (i : Nat) (r' : List Elem),
+    resolveFrom tbl i r = .ok r' → ∀ (j : Nat) (e e' : Elem), r[j]? = some e → r'[j]? = some e' → e'.absolute = e.absolute := by
+  intro r
+  induction r with
+  | nil => intro i r' _ j e e' hj; simp at hj
+  | cons a r ih =>
+    intro i r' h j e e' hj hj'
+    simp only [resolveFrom] at h
+    cases hr : resolveFrom tbl (i + 1) r with
+    | error m => rw [hr] at h; cases h
+    | ok r0 =>
+      rw [hr] at h
+      simp only at h
+      have key : ∀ x, x.absolute = a.absolute → r' = x :: r0 → e'.absolute = e.absolute := by
+        intro x hx hr'
+        subst hr'
+        cases j with
+        | zero => simp at hj hj'; subst hj; subst hj'; exact hx
+        | succ j' => exact ih (i + 1) r0 hr j' e e' (by simpa using hj) (by simpa using hj')
+      by_cases hk : a.kind = .label
+      · rw [if_pos hk] at h; cases h; exact key { a with kind := .jump, next := some 1 } rfl rfl
+      · rw [if_neg hk] at h
+        by_cases hga : a.kind = .goto
+        · rw [if_pos hga] at h
+          cases hl : a.name.bind (fun n => List.lookup n tbl) with
+          | none => rw [hl] at h; cases h
+          | some k0 => rw [hl] at h; cases h; exact key { a with kind := .jump, next := some ((k0 : Int) - (i : Int)) } rfl rfl
+        · rw [if_neg hga] at h; cases h; exact key a rfl rfl
+
+theorem resolveGotos_flag (es es' : List Elem) (h : resolveGotos es = .ok es') (i : Nat) (e e' : Elem)
+    (hi : es[i]? = some e) (hi' : es'[i]? = some e') : e'.absolute = e.absolute := by
+  unfold resolveGotos at h
+  cases hc : checkpoints 0 es [] with
+  | error m => rw [hc] at h; cases h
+  | ok tbl => rw [hc] at h; exact resolveFrom_flag tbl es 0 es' h i e e' hi hi'
+
+end NemoVerif.V1Compile
